@@ -1,5 +1,9 @@
 (* C11/C13/C14 driver: the model decodes the bytes with the descriptor of the named Go type
    (Model/JamTypes.v) and re-encodes; expected outputs follow internal/verifcodec/run.go *)
+(* decf = dec (theorem decf_eq) *)
+let dec = decf
+let dec_frame = decf_frame
+
 let params_of = function "t" -> tiny | "f" -> full | m -> failwith ("mode " ^ m)
 
 let desc_of p name =
